@@ -388,10 +388,26 @@ func runC05(c *ctx, r *Report) error {
 	if !c.quick {
 		nTie = 60000
 	}
-	return semaTie(c, r, nTie, nil, nil, func(cs Case) (string, string) {
+	if err := semaTie(c, r, nTie, nil, nil, func(cs Case) (string, string) {
 		names := []string{"prop-undefined", "filter-prop-undefined", "undefined-variable"}
 		if a, b := semaCodes(cs.Impl, names...), semaCodes(cs.Model, names...); a != b {
 			return "undefined-reports-differ-from-scope-rule", "the checker's 'not defined' reports (" + a + ") differ from the proved scope rule (" + b + ")"
+		}
+		return "", ""
+	}); err != nil {
+		return err
+	}
+	// workflow-level tie of AL.Visit: AL.Props.C09Visit.steps_scope / steps_ids / steps_strict / needs_exact / needs_entry say
+	// which ids are in scope in the model; where the real linter's 'not defined' reports on a probe line differ from
+	// the model's, it departs from that scope rule on this workflow.
+	nV := 300
+	if !c.quick {
+		nV = 6000
+	}
+	return visitTie(c, r, nV, func(cs Case) (string, string) {
+		names := []string{"prop-undefined", "filter-prop-undefined", "undefined-variable"}
+		if a, b := visitCodes(cs.Impl, names...), visitCodes(cs.Model, names...); a != b {
+			return "workflow-scope-differs-from-proved-rule", "the 'not defined' reports at the probes (" + a + ") differ from the proved scope rule (" + b + ")"
 		}
 		return "", ""
 	})
